@@ -2952,6 +2952,25 @@ class GvarFontUnit(Unit):
             got = list(gv2.variations.get(gn, []))
             if len(got) != len(want) or any(not (g == w) for g, w in zip(got, want)):
                 rec.violation("gvar:decompile:" + cls, "glyph %s: %r, expected %r" % (gn, got, want))
+        # the same variations through the GVAR flavour of the table (24-bit glyph count: the header is one
+        # byte longer, so every offset parity differs from gvar's)
+        from fontTools.ttLib import newTable
+
+        big = newTable("GVAR")
+        big.version, big.reserved = 1, 0
+        big.variations = {"A": mk(tA), "B": mk(tB), "C": mk(tC)}
+        try:
+            raw = big.compile(fb.font)
+            back = newTable("GVAR")
+            back.decompile(raw, fb.font)
+            rec.witness("GVAR flavour")
+            for gn, tl in (("A", tA), ("B", tB), ("C", tC), ("D", [])):
+                want = [TV.TupleVariation(dict(r), list(c)) for r, c in tl if any(x is not None for x in c)]
+                got = list(back.variations.get(gn, []))
+                if len(got) != len(want) or any(not (g == w) for g, w in zip(got, want)):
+                    rec.violation("GVAR:decompile:" + cls, "glyph %s: %r, expected %r" % (gn, got, want))
+        except Exception as e:
+            rec.violation("GVAR:exception:%s:%s" % (type(e).__name__, cls), "GVAR compile/decompile of the same variations: %r" % (e,))
         # struct reader
         try:
             tabs = R.sfnt_tables(data)
